@@ -236,7 +236,7 @@ impl Property for C15 {
     }
     fn strategy(tier: Tier) -> BoxedStrategy<Spec> {
         let depth = tier.pick(1usize, 2usize);
-        let cfg = Cfg { min_steps: 1, max_steps: 3, max_owners: 1, sub_depth: depth, multi_sub: true, max_threshold: 2, ..Cfg::basic() };
+        let cfg = Cfg { min_steps: 1, max_steps: 3, max_owners: 1, sub_depth: depth, multi_sub: true, max_threshold: 2, big: true, ..Cfg::basic() };
         (valid_world(cfg), fault_strategy(), any::<u8>(), proptest::option::of("[a-z]{1,6}"), any::<bool>(), prop_oneof![3 => Just(false), 1 => Just(true)], any::<bool>(),
             prop_oneof![1 => Just(None), 2 => (1_200_000_000i64..3_900_000_000).prop_map(Some)], prop_oneof![3 => Just(0u8), 1 => Just(1u8), 1 => Just(2u8), 2 => Just(3u8)])
             .prop_filter_map("has a delegated step", |((mut world, owners), fault, which, step_name, match_link, deeper, dotted, clock, spelling)| {
